@@ -53,7 +53,7 @@ package parse
 //@   ensures err == nil ==> len(expr) <= len(str) && expr == str[:len(expr)] && rest == str[len(expr):] && strings.HasPrefix(rest, delim)
 //@   ensures err != nil ==> err == errNoDelim
 //@   loop 1:
-//@     invariant 0 <= i && 0 <= cs
+//@     invariant 0 <= i && 0 <= cs <= i && 0 - i <= cp <= i
 //@     decreases len(str) + 2 - i
 
 //@ func (t *tokenizer) regexp() (k tok, n tokenizer)
